@@ -161,6 +161,10 @@ type mtype struct {
 	sized bool   // int8/int16/int32/int64: arithmetic wraps (int does not)
 	abs   string // name of the abstract type
 	alen  int64  // length of an array type (0 for slices and strings)
+	// third mode only
+	name string  // Coq name of a struct / sum type
+	flds []fld3  // fields of a struct
+	key  *mtype  // key type of a map
 }
 
 func (t mtype) coq() string {
